@@ -797,10 +797,15 @@ func genPrompting(p *simkit.Plan, r *simkit.Rand, tier string) {
 	unregAt := r.Range(n/2, n)
 	for i := 0; i < n; i++ {
 		a := fmt.Sprintf("c%d", r.Intn(callers))
+		// Some invocations fail inside the prompter (its client went away).
+		failing := ""
+		if r.Chance(1, 5) {
+			failing = failMark
+		}
 		if r.Chance(1, 2) {
-			p.Ops = append(p.Ops, simkit.Op{Actor: a, Kind: "message", S: []string{"m"}})
+			p.Ops = append(p.Ops, simkit.Op{Actor: a, Kind: "message", S: []string{"m" + failing}})
 		} else {
-			p.Ops = append(p.Ops, simkit.Op{Actor: a, Kind: "prompt", S: []string{prompts()}})
+			p.Ops = append(p.Ops, simkit.Op{Actor: a, Kind: "prompt", S: []string{prompts() + failing}})
 		}
 		if i == unregAt {
 			p.Ops = append(p.Ops, simkit.Op{Actor: "u", Kind: "unregister"})
@@ -837,9 +842,25 @@ func (p *simPrompter) enter(kind string) {
 	p.mu.Unlock()
 }
 
-func (p *simPrompter) Message(m string) error { p.enter("Message"); return nil }
+// failMark at the end of a message makes the simulated prompter fail that call.
+const failMark = " [the prompter fails]"
+
+var errPrompterFailed = errors.New("simulated prompter failure")
+
+func (p *simPrompter) Message(m string) error {
+	p.enter("Message")
+	if strings.HasSuffix(m, failMark) {
+		p.s.Count("fault.prompter_failed", 1)
+		return errPrompterFailed
+	}
+	return nil
+}
 func (p *simPrompter) Prompt(m string) (string, error) {
 	p.enter("Prompt")
+	if strings.HasSuffix(m, failMark) {
+		p.s.Count("fault.prompter_failed", 1)
+		return "", errPrompterFailed
+	}
 	return "response", nil
 }
 
@@ -882,15 +903,16 @@ func execPrompting(t *testing.T, plan *simkit.Plan) *simkit.Result {
 								s.Violate("C32", "wrong-response", "Prompt", "Prompt returned %q", resp)
 							}
 							// Response mode clause (pure function riding along).
-							mode := prompting.VerifDetermineResponseMode(op.Str(0))
+							text := strings.TrimSuffix(op.Str(0), failMark)
+							mode := prompting.VerifDetermineResponseMode(text)
 							wantEcho := false
 							for _, suf := range echoSuffixes {
-								if strings.HasSuffix(op.Str(0), suf) {
+								if strings.HasSuffix(text, suf) {
 									wantEcho = true
 								}
 							}
 							if (mode == prompting.ResponseModeEcho) != wantEcho {
-								s.Violate("C32", "response-mode", "determineResponseMode", "prompt %q: mode %v, echo expected %v", op.Str(0), mode, wantEcho)
+								s.Violate("C32", "response-mode", "determineResponseMode", "prompt %q: mode %v, echo expected %v", text, mode, wantEcho)
 							}
 							if wantEcho {
 								s.Count("probe.echo_prompt", 1)
